@@ -292,6 +292,30 @@ def c06(tier, rep):
 
 
 # -------------------------------------------------------------------------------------------------
+def confirm_compile_failures(rep, cviol, header, wrap):
+    """A program whose macro body does not compile against a shim (vstd / vtokio) is a violation only if it does not compile
+    against the real std / tokio either; otherwise the shim is incomplete: the program is skipped and the gap reported."""
+    if not cviol:
+        return
+    progs = []
+    for i, (q, rendered) in enumerate(cviol):
+        d = q.meta.get("dsl")
+        if not d:
+            continue
+        progs.append(e2.Prog("shimcheck%d" % i, "String::new()", wrap % d, [[0]], "Value", meta={"dsl": d, "ref": q.meta.get("ref")}))
+    if not progs:
+        return
+    fr = e2.run_family("shimcheck", progs[:40], shards=4, extra_header=header)
+    real = {p.meta["dsl"] for p, _ in fr.compile_violations}
+    for q, rendered in cviol:
+        d = q.meta.get("dsl")
+        if d in real:
+            rep.violate("%s | compile" % d, "macro output does not compile where the reference does: %s" % d, {"rustc": rendered, "dsl": d})
+        else:
+            rep.exhaustive = False
+            rep.notes.append("skipped (compiles against the real library but not against the exploration shim — shim gap, not a verdict): %s" % (d or q.id)[:200])
+
+
 def run_threads(rep, tier, setname, what, keep=None):
     """build the E3-T harness (all sets share one binary) and run one set"""
     from . import e3t, fam_threads
@@ -315,9 +339,7 @@ def run_threads(rep, tier, setname, what, keep=None):
     if res.capped:
         rep.exhaustive = False
         rep.notes.append("%d thread programs hit the execution cap" % res.capped)
-    for q, rendered in cviol:
-        if q.id in {p.id for p in sets[setname]}:
-            rep.violate("%s | compile" % q.meta.get("dsl", q.id), "macro output does not compile where the reference does: %s" % q.meta.get("dsl", q.id), {"rustc": rendered, "dsl": q.meta.get("dsl")})
+    confirm_compile_failures(rep, [(q, r) for q, r in cviol if q.id in {p.id for p in sets[setname]}], "", "let x = %s;\nformat!(\"{:?}\", x)")
     for p, v, n in res.violations:
         if keep is not None and not keep(v["what"]):
             rep.add("violations_left_to_sibling_property", 1)
@@ -376,9 +398,9 @@ def run_async(rep, tier, setname, what, keep=None):
     if res.capped:
         rep.exhaustive = False
         rep.notes.append("%d async programs hit the execution cap" % res.capped)
-    for q, rendered in cviol:
-        if q.id in {p.id for p in sets[setname]}:
-            rep.violate("%s | compile" % q.meta.get("dsl", q.id), "macro output does not compile (against the tokio shim) where the reference does: %s" % q.meta.get("dsl", q.id), {"rustc": rendered, "dsl": q.meta.get("dsl")})
+    from . import fam_async as _fa
+
+    confirm_compile_failures(rep, [(q, r) for q, r in cviol if q.id in {p.id for p in sets[setname]}], _fa.REAL_HEADER, "let x = trt_mt().block_on(%s);\nformat!(\"{:?}\", x)")
     for p, v, n in res.violations:
         if keep is not None and not keep(v["what"]):
             rep.add("violations_left_to_sibling_property", 1)
